@@ -310,6 +310,90 @@ def header_length(F, fn_path, pkt_struct_rx):
     return None
 
 
+def offset_form(F, fn_path, pkt_struct_rx):
+    """Normal form of the payload offset a decoder stores in its packet struct (`offset: off + ...`):
+         ("const", K)                         off + K
+         ("scaled", K, unit, bits)            off + max(unit * V, K), V = the number whose bits (LSB first) are `bits`
+         ("other", text)                      anything else (clamps against other fields, unmasked shifts, ...)
+       bits are origins ("in", byte, bit) of the input relative to `off`."""
+    f = F.fn(fn_path)
+    if f is None or not f.get("mir"):
+        return None
+    B = M.Body(f)
+    cx = P.Ctx(B, F)
+    buf, off = _buf_arg(B)
+    bind = {buf: ("buf",)}
+    if off:
+        bind[off] = ("off",)
+    else:
+        bind["__off_zero"] = True
+    ev = BitEval(F, B, "decode", bind)
+
+    def unwrap(t):
+        while True:
+            if t[0] == "field" and t[2] == "0" and t[1][0] == "bin" and t[1][1].endswith("WithOverflow"):
+                t = ("bin", t[1][1][:-12], t[1][2], t[1][3])
+            elif t[0] in ("ref", "deref"):
+                t = t[1]
+            elif t[0] == "cast" and t[1] == "usize":
+                inner = unwrap(t[2])
+                if inner[0] == "const":
+                    return inner
+                return t
+            else:
+                return t
+
+    def is_off(t):
+        t = unwrap(t)
+        return t[0] == "arg" and t[1] == "off"
+
+    def const_of(t):
+        t = unwrap(t)
+        if t[0] == "const" and isinstance(t[1], int) and not isinstance(t[1], bool):
+            return t[1]
+        return None
+
+    def scaled(t):
+        """(unit, bits) if t == unit * V for a constant unit"""
+        t = unwrap(t)
+        if t[0] == "bin" and t[1] in ("Mul", "MulUnchecked"):
+            for a, b in ((t[2], t[3]), (t[3], t[2])):
+                k = const_of(b)
+                if k is not None:
+                    return k, ev.bits(unwrap(a))
+        if t[0] == "bin" and t[1] in ("Shl", "ShlUnchecked"):
+            k = const_of(t[3])
+            if k is not None:
+                return 1 << k, ev.bits(unwrap(t[2]))
+        # a plain selection of input bits (e.g. `byte >> 2`): unit 1
+        return 1, ev.bits(t)
+
+    for _, st in find_aggs(B, pkt_struct_rx):
+        for name, op in zip(st["rv"]["fields"], st["rv"]["ops"]):
+            if name != "offset":
+                continue
+            t = unwrap(B.sym_op(op, through_vars=True))
+            if not (t[0] == "bin" and t[1] in ("Add", "AddUnchecked")):
+                return ("other", M.show(t)[:120])
+            x = t[3] if is_off(t[2]) else (t[2] if is_off(t[3]) else None)
+            if x is None:
+                return ("other", M.show(t)[:120])
+            k = const_of(x)
+            if k is not None:
+                return ("const", k)
+            x = unwrap(x)
+            if x[0] == "call" and (x[1] or "").endswith("cmp::max") and len(x[2]) == 2:
+                for a, b in ((x[2][0], x[2][1]), (x[2][1], x[2][0])):
+                    kb = const_of(b)
+                    if kb is not None:
+                        unit, bits = scaled(a)
+                        while bits and bits[-1] == 0:
+                            bits = bits[:-1]
+                        return ("scaled", kb, unit, bits)
+            return ("other", M.show(x)[:120])
+    return None
+
+
 def min_length_guard(F, fn_path):
     """the constant c of the prologue `if buf.len() < off + c { return Err }` (first dominating guard)"""
     f = F.fn(fn_path)
